@@ -226,7 +226,7 @@ def generate(rng, tier, index):
               [(p, "xml") for p in sch_files[1:]]
     for p, kind in targets:
         base = os.path.basename(p)
-        for d in set(dirs + ([cwd] if cwd != "/" else [])):
+        for d in sorted(set(dirs + ([cwd] if cwd != "/" else []))):
             cand = os.path.join(d, base)
             if cand in files or cand in decoys or cand == p:
                 continue
